@@ -30,7 +30,7 @@ THRESHOLDS = {"quick": {**{f"c05:{f}:{c}": 30 for f in FORMATS for c in ("memory
                         "c05:collection-empty-member": 10, "c05:no-meta-at-all": 30, "c05:precollected": 30, "c05:with-meta": 100,
                         "c05:len>=100": 8, "c05:one-cell-solution": 30, "c05:two-cell-solution": 30, "c05:meta-keys-compared": 100,
                         "c05:auto-picked-minimal": 20, "c05:auto-picked-full": 20,
-                        "c05:solution>127-cells": 20, "c05:solution>255-cells": 3, "c05:len>127": 8, "c05:overwrite-same-config": 40, "c05:reserialize-after-in-place-edit": 120, "c05:float-metadata-key-many-digits": 60, "c05:collection-members-with-equal-configs": 20, "c05:filter-history": 100, "c05:filter-history-repeated-entry": 30, "c05:total-solution-cells>32767": 8, "c05:generator-kwarg:list": 20, "c05:endpoint-options-in-config": 8, "c05:generator-kwarg:tuple": 3, "c05:hand-built-from-callers-config": 5, "c05:config-compared-with-library-eq": 1000}}
+                        "c05:solution>127-cells": 20, "c05:solution>255-cells": 3, "c05:len>127": 8, "c05:overwrite-same-config": 40, "c05:reserialize-after-in-place-edit": 120, "c05:float-metadata-key-many-digits": 60, "c05:collection-members-with-equal-configs": 20, "c05:filter-history": 100, "c05:filter-history-repeated-entry": 30, "c05:total-solution-cells>32767": 8, "c05:generator-kwarg:list": 20, "c05:grid-side>128": 8, "c05:config-seed-0": 20, "c05:endpoint-options-in-config": 8, "c05:generator-kwarg:tuple": 3, "c05:hand-built-from-callers-config": 5, "c05:config-compared-with-library-eq": 1000}}
 THRESHOLDS["thorough"] = dict(THRESHOLDS["quick"])
 ANCHORS = ["maze_dataset.dataset.maze_dataset:MazeDataset.serialize", "maze_dataset.dataset.maze_dataset:MazeDataset.load",
            "maze_dataset.dataset.maze_dataset:MazeDataset._load_full", "maze_dataset.dataset.maze_dataset:MazeDataset._load_minimal",
@@ -219,8 +219,14 @@ def build_dataset(ctx, rng, j):
         else:
             # harness-built mazes: ragged solutions incl. one-cell, two-cell and maximal paths, no generation metadata
             mazes = []
+            if j % 40 == 23:
+                # a grid with sides past 128: coordinates beyond what an 8-bit signed integer holds, routes between far corners
+                g, n = [129, 130, 140, 200][(j // 40) % 4], 2
+                tags.append("grid-side>128")
             for t in range(n):
                 fam = ["tree", "cyc3", "perc6", "serpentine"][t % 4] if g < 12 else (["serpentine", "tree"][t % 2] if n < 100 else "serpentine")
+                if g > 128:
+                    fam = "tree"
                 _, cl = ref.random_structure(g, g, rng, fam)
                 gr = Graph(cl)
                 cells = ref.all_cells(g, g)
@@ -236,10 +242,16 @@ def build_dataset(ctx, rng, j):
                         tags.append("solution>127-cells")
                     if g >= 17:
                         tags.append("solution>255-cells")
+                elif g > 128:
+                    s, e = [((0, 0), (g - 1, g - 1)), ((g - 1, 0), (3, g - 1))][t % 2]
                 else:
                     e = comp[int(rng.integers(len(comp)))]
                 mazes.append(lib.solved(cl, gr.shortest_path(s, e, rng)))
-            cfg = MazeDatasetConfig(name=f"c05h-{j}", grid_n=g, n_mazes=n, seed=int(rng.integers(1 << 30)))
+            # (a dataset put together by hand keeps the caller's own config object; seed 0 is a seed like any other)
+            seed_h = 0 if j % 4 == 3 and (j // 4) % 3 == 0 else int(rng.integers(1 << 30))
+            if seed_h == 0:
+                tags.append("config-seed-0")
+            cfg = MazeDatasetConfig(name=f"c05h-{j}", grid_n=g, n_mazes=n, seed=seed_h)
             ds = MazeDataset(cfg, mazes)
             tags.append("no-meta-at-all")
     if n >= 100:
@@ -403,7 +415,8 @@ def collections(ctx, j, rng):
                                         maze_ctor=GENERATORS_MAP[["gen_dfs", "gen_dfs_percolation"][t % 2]],
                                         maze_ctor_kwargs=[{}, dict(p=0.3)][t % 2], seed=int(rng.integers(1 << 30)))
                 members.append(MazeDataset.generate(cfg))
-            col = MazeDatasetCollection(MazeDatasetCollectionConfig(name=f"col{j}", maze_dataset_configs=[m.cfg for m in members]), members)
+            col_seed = [0, 7, int(rng.integers(1 << 30))][j % 3]
+            col = MazeDatasetCollection(MazeDatasetCollectionConfig(name=f"col{j}", maze_dataset_configs=[m.cfg for m in members], seed=col_seed), members)
             snaps = [snapshot(m) for m in members]
             md.set_serialize_minimal_threshold(thr)
             if chan == "memory":
@@ -423,6 +436,11 @@ def collections(ctx, j, rng):
             return
         ctx.check(loaded.cfg.name == col.cfg.name and [cfg_fields(c) for c in loaded.cfg.maze_dataset_configs] == [cfg_fields(m.cfg) for m in members],
                   f"{mech}/collection-config-differs", "", case)
+        ctx.check(loaded.cfg.seed == col.cfg.seed, f"{mech}/collection-config-differs/seed", f"collection config seed {col.cfg.seed} read back as {loaded.cfg.seed}", case)
+        try:
+            ctx.check(bool(loaded.cfg == col.cfg), f"{mech}/collection-config-not-equal", lambda: f"loaded.cfg != collection.cfg: {_safe_diff(loaded.cfg, col.cfg)}"[:600], case)
+        except Exception as e:  # noqa: BLE001
+            ctx.violation(f"{mech}/collection-config-eq-raises/{type(e).__name__}", repr(e)[:300], case)
         for t, (sn, m, lm) in enumerate(zip(snaps, members, loaded.maze_datasets)):
             exp_meta = meta_norm(m.generation_metadata_collected) if m.generation_metadata_collected is not None else sn["meta"]
             compare(ctx, sn, cfg_fields(m.cfg), lm, f"{mech}/member", dict(case, member=t), expect_meta_from=exp_meta, ds_cfg=m.cfg)
